@@ -423,3 +423,16 @@ PROPS["C08"] = {
     "tolerances": {"cost": "1e-9 of the sum of absolute terms", "states": "4x running Horner bound", "times": "4 ulp"},
     "assumptions": ["serial executor (the recording functor is not thread-safe)"],
 }
+
+PROPS["C19"] = {
+    "jobs": _opt_cost_jobs("C19", 700, 40000, (1, 2, 3)),
+    "floor_quick": 5000, "floor_thorough": 300000,
+    "rule": "order x dimension 1..3 x {default maps, user maps} x N in 1..5 x flags (any of 256) x K x energy weight x cost programs x eps in {1e-6 (default), 1e-5, 1e-4} x both overloads x own / built-in workspace. "
+            "The documented procedure is re-enacted through plain evaluate calls (analytic gradient g, central differences n, resolution nu = |g-n|); the tolerance is generated relative to that resolution: max(1e-4, 20 nu) (the default 1e-4 whenever it is resolvable), 200 nu or 2000 nu. "
+            "Checked: 'analytical' is bitwise the gradient of a direct evaluate, 'numerical' is the central difference of the optimizer's own cost, error_norm/rel_error are consistent, the workspace spline afterwards is bitwise the one a plain evaluate(x) leaves, "
+            "correct functors are reported valid, and a functor with ONE wrong gradient component (time, waypoint or running cost; sized so that its effect on the checked gradient is 30x or 1000x the tolerance) is reported invalid. "
+            "non-trivial = a derivative/end-point flag set, or a judged perturbed functor",
+    "tolerances": {"numerical vs model": "1e-9 relative + 64 eps max|c| / eps_fd", "state after the check": "bitwise", "verdict": "judged when effect >= 10 tol (wrong) or for correct functors with tol >= 20 nu; in between not judged (counted)"},
+    "assumptions": ["the rule 'valid <=> error_norm < tol' is deliberately not part of the oracle", "a supplied component that cannot influence the decision vector (e.g. gradient w.r.t. an unflagged end point) is invisible to any self-check and is not judged",
+                    "default (eps,tol) on problems whose gradients are too large for a 1e-4 absolute tolerance is outside the judged domain (DESIGN s8, O2)"],
+}
